@@ -72,6 +72,7 @@ pub struct History<'h> {
     pub last_peek_ends: Vec<usize>,
     pub last_setoff: usize,
     pub dead: bool,
+    pub flip: bool,
 }
 
 impl<'h> History<'h> {
@@ -89,6 +90,7 @@ impl<'h> History<'h> {
             last_peek_ends: vec![],
             last_setoff: 0,
             dead: false,
+            flip: false,
         }
     }
 
@@ -108,7 +110,10 @@ impl<'h> History<'h> {
         self.last_setoff = o;
         self.last_peek_ends.clear();
         let _ = writeln!(out, "setoff {} {}", self.k, o);
-        if self.guarded(|it| it.set_offset(o)).is_none() {
+        // alternately the inherent method and the one of the trait `PositionProvider`
+        self.flip = !self.flip;
+        let via_trait = self.flip;
+        if self.guarded(|it| if via_trait { PositionProvider::set_offset(it, o) } else { it.set_offset(o) }).is_none() {
             out.push_str("expect panic\n");
         }
     }
@@ -245,20 +250,11 @@ impl<'h> History<'h> {
                 4..=5 if !after_lf.is_empty() => *r.pick(&after_lf),
                 _ => *r.pick(&cands),
             };
-            self.last_setoff = o;
-            self.last_peek_ends.clear();
-            let _ = writeln!(out, "setoff {} {}", k, o);
-            if self.guarded(|it| it.set_offset(o)).is_none() {
-                out.push_str("expect panic\n");
-            }
+            self.set_offset_to(o, out);
             "setoff_back"
         } else if take!(p.setoff_any) {
             let o = if r.chance(80) { *r.pick(&self.boundaries) } else { self.input.len() + r.below(4) };
-            self.last_peek_ends.clear();
-            let _ = writeln!(out, "setoff {} {}", k, o);
-            if self.guarded(|it| it.set_offset(o)).is_none() {
-                out.push_str("expect panic\n");
-            }
+            self.set_offset_to(o, out);
             "setoff_any"
         } else if take!(p.withoff) {
             let o = if r.chance(85) { *r.pick(&self.boundaries) } else { self.input.len() + r.below(4) };
